@@ -21,6 +21,7 @@ type pipeCase struct {
 	Cap       uint   `json:"cap"`
 	FeedFirst bool   `json:"feed_first,omitempty"` // the whole stream is added and the input closed before the pipeline is built
 	Elem      string `json:"elem,omitempty"`       // element type of the queues (see queueCodec in queue_test.go)
+	Observe   bool   `json:"observe,omitempty"`    // the readers look at their output (GetSize, IsEmpty, AsArray) before every RemoveHead
 }
 
 // counter is the caller's wait group.  Under the cooperative scheduler one goroutine runs at a time.
@@ -52,6 +53,7 @@ func genPipe(maxLen int) func(core.Source) pipeCase {
 		// a short stream fits into the input queue: it may be complete and closed before Fork/Split/Join is called
 		c.FeedFirst = uint(c.Length) <= c.Cap && s.Choose(3, "feed-first") == 0
 		c.Elem = core.Pick(s, queueElems, "elem")
+		c.Observe = s.Choose(3, "observe") == 0
 		return c
 	}
 }
@@ -80,6 +82,17 @@ func execPipeE[E any](c pipeCase, src core.Source, cd lib.Codec[E]) (res core.Re
 	var outputs []col.QueueLike[E]
 	received := map[int][]int{}
 	afterClose := map[int]string{}
+	observed := map[int]string{}
+	wantFor := func(i int) []int {
+		if c.Topology == "Split" {
+			var want []int
+			for k := i; k < len(values); k += c.FanOut {
+				want = append(want, values[k])
+			}
+			return want
+		}
+		return values
+	}
 	s := sched.New(src, false)
 	group.sched, group.doneAt = s, map[*sched.G]int{}
 	uninstall := s.Install()
@@ -116,6 +129,20 @@ func execPipeE[E any](c pipeCase, src core.Source, cd lib.Codec[E]) (res core.Re
 			i, out := i, out
 			s.Go(fmt.Sprintf("reader%d", i), func() {
 				for {
+					if c.Observe && observed[i] == "" {
+						// this reader is the only one that removes from its output: what it sees there is a run of
+						// the values it still expects, in order, within the capacity
+						size, empty, arr := out.GetSize(), out.IsEmpty(), lib.DecAll(cd, out.AsArray())
+						rest := wantFor(i)[min(len(received[i]), len(wantFor(i))):]
+						switch {
+						case size < 0 || uint(size) > out.GetCapacity():
+							observed[i] = fmt.Sprintf("GetSize() = %d with capacity %d", size, out.GetCapacity())
+						case len(arr) > len(rest) || !lib.EqInts(arr, append([]int{}, rest[:len(arr)]...)) && len(arr) > 0:
+							observed[i] = fmt.Sprintf("AsArray() = %v while the values still to come are %v", arr, rest)
+						case empty && size > 0:
+							_ = empty // the two calls are not atomic: no relation is required between them
+						}
+					}
 					v, ok := out.RemoveHead()
 					if !ok {
 						break
@@ -185,6 +212,10 @@ func execPipeE[E any](c pipeCase, src core.Source, cd lib.Codec[E]) (res core.Re
 			res.Violation = core.Violate("C06/wrong-stream/"+c.Topology, "%s: output %d delivered %v, expected %v", desc, i, received[i], want)
 			return
 		}
+		if msg := observed[i]; msg != "" {
+			res.Violation = core.Violate("C06/output-view-wrong", "%s: output %d: %s", desc, i, msg)
+			return
+		}
 		if msg, bad := afterClose[i]; bad {
 			res.Violation = core.Violate("C06/delivered-after-closure", "%s: output %d: %s", desc, i, msg)
 			return
@@ -199,6 +230,9 @@ func execPipeE[E any](c pipeCase, src core.Source, cd lib.Codec[E]) (res core.Re
 	if c.Elem != "" {
 		res.Classes = append(res.Classes, "elem-"+c.Elem)
 	}
+	if c.Observe {
+		res.Classes = append(res.Classes, "readers-look-at-their-output")
+	}
 	if r.AnyBlocked {
 		res.Classes = append(res.Classes, "some-call-blocked")
 	}
@@ -210,12 +244,16 @@ func TestC06(t *testing.T) {
 	defer r.End()
 	// every schedule of the smallest pipelines, one bounded enumeration per configuration (the schedule
 	// space explodes quickly: the bound keeps the tier's budget, exhaustive=false is reported when it is hit)
-	for _, cfg := range []pipeCase{{"Fork", 0, 2, 1, false, ""}, {"Split", 0, 2, 1, false, ""}, {"Split", 1, 2, 1, false, ""}, {"Fork", 1, 2, 1, false, ""}, {"Split", 1, 3, 1, false, ""}, {"SplitJoin", 0, 2, 1, false, ""}, {"SplitJoin", 1, 2, 1, false, ""},
-		{"Fork", 1, 2, 1, false, "anynil"}, {"Split", 1, 2, 1, false, "anynil"}, {"SplitJoin", 1, 2, 1, false, "anynil"}} {
+	for _, cfg := range []pipeCase{{"Fork", 0, 2, 1, false, "", false}, {"Split", 0, 2, 1, false, "", false}, {"Split", 1, 2, 1, false, "", false}, {"Fork", 1, 2, 1, false, "", false}, {"Split", 1, 3, 1, false, "", false}, {"SplitJoin", 0, 2, 1, false, "", false}, {"SplitJoin", 1, 2, 1, false, "", false},
+		{"Fork", 1, 2, 1, false, "anynil", false}, {"Split", 1, 2, 1, false, "anynil", false}, {"SplitJoin", 1, 2, 1, false, "anynil", false},
+		{"Fork", 2, 2, 1, false, "", true}, {"Split", 2, 2, 1, false, "", true}} {
 		cfg := cfg
 		name := fmt.Sprintf("all-schedules-%s-len%d-fan%d", cfg.Topology, cfg.Length, cfg.FanOut)
 		if cfg.Elem != "" {
 			name += "-" + cfg.Elem
+		}
+		if cfg.Observe {
+			name += "-observing"
 		}
 		core.DFS(r, core.Check[pipeCase]{Name: name, Bounded: true, Gen: func(core.Source) pipeCase { return cfg }, Exec: execPipe}, r.N(2500, 100000))
 	}
